@@ -85,6 +85,10 @@ type End struct {
 	ReuseRecvBuf bool
 	rbuf         []byte
 	Spin         int // Gosched iterations inside each operation
+	// HoldSend, if set (before the end is handed to the library), makes every Send
+	// receive one value from it before it delivers: a transport with back-pressure
+	// whose reader the harness controls. Closing it lets everything through.
+	HoldSend chan struct{}
 
 	in, out *queue
 	mon     Monitor
@@ -176,6 +180,10 @@ func (e *End) Send(rec []byte) error {
 		}
 	}
 	e.spin()
+	if e.HoldSend != nil {
+		e.event("send.held", nil)
+		<-e.HoldSend
+	}
 	var err error
 	if f := e.fault(OpSend, k); f != nil {
 		e.event("fault.send", nil)
